@@ -147,5 +147,29 @@ Definition render_position_format : fdef :=
      f_body := [(SAssign (TName "units") (XCallMethod (XAttr (XName "self") "units_renderer") "format" [(XAttr (XName "value") "units")])); (SIf (XCompare (XAttr (XName "value") "cost") [(CIs, (XConst PNone))]) [(SReturn (Some (XCallMethod (XName "units") "ljust" [(XAttr (XName "self") "maxwidth")])))] []); (SAssign (TName "cost") (XCallMethod (XAttr (XName "self") "cost_renderer") "format" [(XAttr (XName "value") "cost")])); (SReturn (Some (XPrim "fstr" [(XPrim "format:plain" [(XName "units")]); (XConst (PV (VStr [32; 123]))); (XPrim "format:plain" [(XName "cost")]); (XConst (PV (VStr [125])))])))];
      f_gen := false |}.
 
+(* beanquery.query_render.CostRenderer.__init__ without its first statement `super().__init__(ctx)` *)
+Definition render_cost_init_tail : fdef :=
+  {| f_params := ["self"; "ctx"];
+     f_body := [(SAssign (TSelf "amount_renderer") (XCall (XConst (PRef 2)) [(XName "ctx")] None)); (SAssign (TSelf "date_width") (XConst (PInt 0))); (SAssign (TSelf "label_width") (XConst (PInt 0)))];
+     f_gen := false |}.
+
+(* beanquery.query_render.CostRenderer.update *)
+Definition render_cost_update : fdef :=
+  {| f_params := ["self"; "value"];
+     f_body := [(SExpr (XMethod (TSelf "amount_renderer") "update" [(XName "value")])); (SIf (XCompare (XAttr (XName "value") "date") [(CIsNot, (XConst PNone))]) [(SAssign (TSelf "date_width") (XBin OAdd (XConst (PInt 10)) (XConst (PInt 2))))] []); (SIf (XCompare (XAttr (XName "value") "label") [(CIsNot, (XConst PNone))]) [(SAssign (TSelf "label_width") (XPrim "builtins.max" [(XAttr (XName "self") "label_width"); (XBin OAdd (XLen (XAttr (XName "value") "label")) (XConst (PInt 4)))]))] [])];
+     f_gen := false |}.
+
+(* beanquery.query_render.CostRenderer.prepare without its last statement `return super().prepare()` *)
+Definition render_cost_prepare_head : fdef :=
+  {| f_params := ["self"];
+     f_body := [(SAssign (TName "cost_width") (XMethod (TSelf "amount_renderer") "prepare" [])); (SAssign (TSelf "maxwidth") (XBin OAdd (XBin OAdd (XName "cost_width") (XAttr (XName "self") "date_width")) (XAttr (XName "self") "label_width")))];
+     f_gen := false |}.
+
+(* beanquery.query_render.CostRenderer.format *)
+Definition render_cost_format : fdef :=
+  {| f_params := ["self"; "value"];
+     f_body := [(SAssign (TName "parts") (XList [(XCallMethod (XAttr (XName "self") "amount_renderer") "format" [(XName "value")])])); (SIf (XCompare (XAttr (XName "value") "date") [(CIsNot, (XConst PNone))]) [(SExpr (XMethod (TName "parts") "append" [(XPrim "fstr" [(XPrim "format:spec" [(XAttr (XName "value") "date"); (XConst (PV (VStr [37; 89; 45; 37; 109; 45; 37; 100])))])])]))] []); (SIf (XCompare (XAttr (XName "value") "label") [(CIsNot, (XConst PNone))]) [(SExpr (XMethod (TName "parts") "append" [(XPrim "fstr" [(XConst (PV (VStr [34]))); (XPrim "format:plain" [(XAttr (XName "value") "label")]); (XConst (PV (VStr [34])))])]))] []); (SReturn (Some (XCallMethod (XConst (PV (VStr [44; 32]))) "join" [(XName "parts")])))];
+     f_gen := false |}.
+
 Definition refs : list (nat * string) :=
   [(0%nat, "beanquery.query_render._get_renderer"); (1%nat, "beanquery.query_render.render_rows"); (2%nat, "beanquery.query_render.AmountRenderer")].
